@@ -95,7 +95,7 @@ def _neg(n):
 
 def shards(tier):
     k = 1 if tier == "quick" else 30
-    return ([("fin", 220 * k)] * 5 + [("inf", 90 * k)] * 4 + [("cpath", 130 * k)] * 2 + [("nd", 70 * k)] * 5)
+    return ([("fin", 150 * k)] * 5 + [("inf", 65 * k)] * 4 + [("cpath", 110 * k)] * 2 + [("nd", 45 * k)] * 5)
 
 
 def _dy(d, maxnum, maxshift, nonzero=False):
@@ -1180,8 +1180,6 @@ def check_case(case):
                 if prev is not None and (j, p, api) != key:
                     g0, tol0, ok0 = prev
                     expect = -g0 if kind == "rev" else g0
-                    if abs(g - expect) > 2 * max(tol, tol0) and ok0 and ok:
-                        pass          # cannot happen: both are within tol of consistent closed forms
                     if abs(g - expect) > 2 * max(tol, tol0):
                         res.bad("meta:%s:%s:%s" % ("reverse" if kind == "rev" else "split", rule, dom),
                                 "%s: got %s but the %s path gave %s" % (what, mr.nstr(g, 25),
